@@ -225,11 +225,35 @@ class ObjectiveSpy:
         for a in args:
             v = v + float(a)
         v = _apply_faults(self.faults, idx, x, v)
-        ev["v"] = v
+        v = _retype(v, getattr(self, "rtype", None))
+        ev["v"] = float(v)
         ev["done"] = True
         if self.scribble:
             _scribble(x)
         return v
+
+
+def _retype(v, rtype):
+    """Legitimate but unusual return types of user functions: integers
+    (Python / numpy, scalar / array), float32, lists, 0-d arrays.  The value
+    is rounded first so that the recorded truth is what is returned."""
+    if rtype is None:
+        return v
+    a = np.asarray(v, dtype=float)
+    if rtype in ("int", "pyint"):
+        if not np.all(np.isfinite(a)) or np.any(np.abs(a) > 2.0 ** 50):
+            return v
+        r = np.rint(a).astype(np.int64)
+        if r.ndim == 0:
+            return int(r) if rtype == "pyint" else np.int64(r)
+        return r
+    if rtype == "float32":
+        return a.astype(np.float32)
+    if rtype == "list":
+        return a.tolist()
+    if rtype == "bool":
+        return (a > 0) if a.ndim else bool(a > 0)
+    return v
 
 
 class ConstraintSpy:
@@ -259,6 +283,7 @@ class ConstraintSpy:
         for a in args:
             v = v + float(a)
         v = _apply_faults(self.faults, idx, x, v)
+        v = _retype(v, getattr(self, "rtype", None))
         ev["v"] = np.array(v, dtype=float, copy=True)
         got = tuple(float(a) for a in args)
         if got != self.expected_args:
@@ -274,8 +299,10 @@ class ConstraintSpy:
         ev["done"] = True
         if self.scribble:
             _scribble(x)
+        if isinstance(v, list):
+            return v
         if self.scalar and v.size == 1:
-            return float(v[0])
+            return v[0] if getattr(self, "rtype", None) else float(v[0])
         return v
 
 
@@ -405,6 +432,7 @@ def build(spec, readonly=False):
             [f for f in faults if f["target"] == "obj"],
             scribble=bool(spec.get("scribble")))
         b.fun = b.obj_spy
+        b.obj_spy.rtype = (spec.get("rtype") or {}).get("obj")
     b.args = tuple(spec.get("args", ()))
     b.x0 = arr(spec["x0"])
 
@@ -452,6 +480,7 @@ def build(spec, readonly=False):
             expected_args=nc.get("cargs", ()) if nc.get("form", "nlc") != "nlc"
             else ())
         spy.scribble = bool(spec.get("scribble"))
+        spy.rtype = (spec.get("rtype") or {}).get("con")
         b.con_spies.append(spy)
         form = nc.get("form", "nlc")
         m = len(comps)
